@@ -72,54 +72,34 @@ namespace AIToolbox {
     VoseAliasSampler::VoseAliasSampler(const ProbabilityVector & p) :
             prob_(p), alias_(prob_.size()), sampleDistribution_(0, prob_.size())
     {
-        // Here we do the Vose Alias setup in a way that avoids the creation of
-        // the small and large arrays.
+        // Standard Vose Alias setup with two worklists: entries currently
+        // below the average (small) and entries at or above it (large).
         //
-        // In practice what we do is we keep two pointers, one for large
-        // elements and one for the small ones, and we move them along the
-        // array as if we had already sorted the thing.
+        // Each step pairs one small entry with one large entry: the small
+        // entry's cell is completed with the large one as its alias, and the
+        // large entry gives up exactly the mass needed to fill that cell.
+        // Every entry is finalized at most once, and entries still waiting in
+        // a worklist always hold their remaining (unassigned) mass.
 
         const auto avg = 1.0 / prob_.size();
-        auto small = 0, large = 0;
-        while (small < prob_.size() && prob_[small] >= avg) ++small;
-        while (large < prob_.size() && prob_[large] < avg) ++large;
+        std::vector<size_t> small, large;
+        for (size_t i = 0; i < alias_.size(); ++i)
+            (prob_[i] < avg ? small : large).push_back(i);
 
-        auto smallCheckpoint = small;
+        while (!small.empty() && !large.empty()) {
+            const auto s = small.back(); small.pop_back();
+            const auto l = large.back(); large.pop_back();
 
-        while (small < prob_.size() && large < prob_.size()) {
-            // Note: we do not do any assignments to prob_[small] here since if
-            // we scaled the values already we might trip the large counter (as
-            // it might be behind the small counter).
-            prob_[large] = (prob_[large] + prob_[small]) - avg;
-            alias_[small] = large;
+            alias_[s] = l;
+            prob_[l] = (prob_[l] + prob_[s]) - avg;
 
-            // If the large became small, we temporarily move the small counter
-            // here, and look around for a new large element.
-            // Otherwise, we go back to our last small 'checkpoint', and we
-            // look for a new small element.
-            if (prob_[large] < avg) {
-                small = large;
-                ++large;
-                while (large < prob_.size() && prob_[large] < avg) ++large;
-            } else {
-                small = smallCheckpoint + 1;
-                while (small < prob_.size() && prob_[small] >= avg) ++small;
-                // Set the checkpoint again
-                smallCheckpoint = small;
-            }
+            (prob_[l] < avg ? small : large).push_back(l);
         }
 
-        // Now, for each entry which remained unassigned (so it is still with
-        // the 0 default in the alias vector), we set it to just reference
-        // itself. This takes care of both large and small entries which have
-        // been left with no pairings.
-        auto x = std::min(large, small);
-        while (x < prob_.size()) {
-            prob_[x] = 1.0;
-            alias_[x] = x;
-            ++x;
-            while (x < prob_.size() && alias_[x] != 0) ++x;
-        }
+        // Whatever is left (only possible through numerical error, or for the
+        // last large entries which are exactly average) owns its whole cell.
+        for (const auto x : large) { prob_[x] = 1.0; alias_[x] = x; }
+        for (const auto x : small) { prob_[x] = 1.0; alias_[x] = x; }
 
         // Here we scale up the vector so that each entry can be correctly seen
         // as a weighted coin. Note that all 1.0 entries will now be larger,
